@@ -366,12 +366,45 @@ def check_scorer_params(prog: Program, res: Result) -> None:
     res.count(R, len(given))
 
 
+def check_candidate_lists(prog: Program, res: Result) -> None:
+    """get_connection_candidates concatenates one (possibly EMPTY) tensor per edge type: every iteration of the per-edge loop
+    appends to each list.  An iteration that skips the appends for an edge type without candidates leaves `torch.cat([])`
+    for a frame where NO edge type has a candidate (no detections, a single detected node type) - grouping raises instead of
+    returning no instances."""
+    from ..core.cfg import CFG
+    R = "C08-filter"
+    fi = prog.func(f"{PG}:get_connection_candidates")
+    res.touch(fi)
+    cfg = CFG(fi.node)
+    cats = [c for c in walk_function(fi.node) if isinstance(c, ast.Call) and norm(c.func).split(".")[-1] in ("cat", "concat", "concatenate") and c.args and isinstance(c.args[0], ast.Name)]
+    n = 0
+    for c in cats:
+        L = c.args[0].id
+        apps = [a for a in astq.method_calls(fi.node, "append") if norm(a.func.value) == L and astq.enclosing_loops(a)]
+        if not apps:
+            comp = [b for b in astq.list_builds(fi.node, L) if isinstance(b.site, ast.ListComp)]
+            res.ob(R, bool(comp) and not any(b.conds for b in comp), fi.qualname, f"`{L}` has one tensor per edge type", f"`{L}` is not filled with one tensor per edge type", fi.where)
+            n += 1
+            continue
+        lp = astq.enclosing_loops(apps[0])[-1]
+        heads = cfg.nodes_of(lp)
+        enter = [m for h in heads for m in cfg.g.successors(h) if "true" in cfg.g[h][m]["labels"]]
+        an = {x for a in apps for x in cfg.stmt_nodes_containing(a)}
+        w = cfg.must_pass(enter, heads, an, drop_edge=lambda a_, b_, labels: "exc" in labels)
+        n += 1
+        res.ob(R, w is None, fi.qualname, f"every edge type contributes a (possibly empty) tensor to `{L}`",
+               f"an iteration of the per-edge loop can end without appending to `{L}` ({cfg.path_str(w) if w else ''}): when no edge type has a candidate, torch.cat receives an "
+               "empty list and raises - a frame without candidate connections no longer yields 'no instances'", f"{fi.module.relpath}:{lp.lineno}")
+    res.ob(R, n >= 2, fi.qualname, "candidate lists found", f"only {n} concatenated candidate lists found in get_connection_candidates", fi.where)
+
+
 def check(prog: Program, res: Result) -> None:
     from . import _state
     _state.check_no_cross_call_state(prog, res, "C08-state", ["sleap_nn.inference.paf_grouping:PAFScorer.predict", "sleap_nn.inference.paf_grouping:PAFScorer.score_paf_lines", "sleap_nn.inference.paf_grouping:PAFScorer.match_candidates", "sleap_nn.inference.paf_grouping:PAFScorer.group_instances"], floor=4)
     check_scorer_params(prog, res)
     c09.check_inf(prog, res, "C08-inf", PG)
     check_filter(prog, res)
+    check_candidate_lists(prog, res)
     c17.check_use(prog, res, rule="C08-order")
     check_minpeaks(prog, res)
     check_select(prog, res)
